@@ -466,7 +466,7 @@ def callForeign (S : Sem ν) (name : Name) (args : List (Value ν)) (m : Machine
     match args with
     | [] => .next { m with out := m.out ++ [""] }
     | [v] =>
-      (match v.toStr S with
+      (match v.printText S with
        | some t => .next { m with out := m.out ++ [t] }
        | none => .panic "print of format specifiers")
     | _ => .panic "assertion failed: args.len() <= 1"
